@@ -311,3 +311,27 @@ for _path, _cif in (("1abc.pdb", False), ("dir/x.CIF", True), ("y.cif", True), (
                    "pdb2pqr.pdb:read_pdb": TupleOf(_lst, OneOf(Items(), Items(Const("JUNK"))))},
             name=f"get_molecule.{_path}.{_n}", native=False,
         )
+
+
+# ====================================================================================================== check_files
+# A normal return means every file that was named exists (each one is looked at once) and --userff came with --usernames;
+# without a user force field the named built-in one is looked up.
+def given(x):
+    return 0 if x is None else 1
+
+
+contract(
+    "pdb2pqr.main:check_files", "C12",
+    params={"args": Obj("Namespace", usernames=OneOf(Const(None), Const("my.names")), userff=OneOf(Const(None), Const("my.dat")),
+                        ff=OneOf(Const(None), Const("amber")), ligand=OneOf(Const(None), Const("lig.mol2")))},
+    requires=[],
+    ensures=[
+        "forall(calls_of('is_file'), lambda c: c.ret == True)",
+        "len(calls_of('is_file')) == given(args.usernames) + given(args.userff) + given(args.ligand)",
+        "implies(args.userff is not None, args.usernames is not None)",
+        "iff(len(calls_of('test_dat_file')) == 1, args.userff is None and args.ff is not None)",
+    ],
+    raises={"FileNotFoundError": "True", "RuntimeError": "True"},
+    trace={"Path.is_file": Bool, "pdb2pqr.io:test_dat_file": Raises(Str, "FileNotFoundError")},
+    name="check_files", native=False,
+)
